@@ -189,7 +189,10 @@ def all_cases(quick):
 
 
 def make_world(ctx, shard):
-    return lsx.RetryWorld(ctx, 'w%d' % shard, ls.port_base_for_check(ctx.pid, shard), memory_cache=True)
+    # odd shards keep the entries in the shared memory cache (MemStore, also usable by a single -N process), whose
+    # header update after a 304 rewrites the first slices of the entry in place; even shards use the local one
+    conf = 'memory_cache_shared on\ncache_mem 16 MB\n' if shard % 2 else ''
+    return lsx.RetryWorld(ctx, 'w%d' % shard, ls.port_base_for_check(ctx.pid, shard), conf=conf, memory_cache=True)
 
 
 class Origin:
